@@ -44,8 +44,10 @@ FullOK(ln) ==
     /\ ln.opaque \/ (/\ ln.full.mesh.n = ExpN(ln.f)
                      /\ PosKnown(ln.f) => (ln.posok /\ ln.fullpos = ExpPos(ln.f)))
 
+\* real files without abstract content come with a three-cell table only; the
+\* harness picks their token boundaries itself (sampled, see `sampled`)
 CutSet(ln) ==
-    IF ln.ascii /\ ln.f.frame = "none" THEN AsciiCutPoints(ln.cells, ln.len) ELSE 0..(ln.len - 1)
+    IF ln.ascii /\ ln.f.frame = "none" /\ ~ln.opaque THEN AsciiCutPoints(ln.cells, ln.len) ELSE 0..(ln.len - 1)
 
 TFile ==
     /\ l <= Len(Trace) /\ Trace[l].k = "file"
